@@ -522,4 +522,170 @@ theorem shape_dom_order (bs : List Block) (h : Shape bs) : ∀ j, j < bs.length 
         omega
 
 
+open Circomspect CfgLift CfgSpec
+
+/-- no branch before the last statement of any block, and none at all in the (open) last block -/
+def noBranch (l : List IStmt) : Prop := ∀ s, s ∈ l → isBranch s = false
+
+def BranchLast (bs : List Block) : Prop :=
+  0 < bs.length ∧
+  (∀ (i : Nat) (b : Block), bs[i]? = some b → noBranch b.stmts.dropLast) ∧
+  (∀ (b : Block), bs[bs.length - 1]? = some b → noBranch b.stmts)
+
+theorem noBranch_dropLast {l : List IStmt} (h : noBranch l) : noBranch l.dropLast :=
+  fun s hs => h s (List.dropLast_subset l hs)
+
+theorem patchFalse_stmts (b : Block) (j : Nat) (h : noBranch b.stmts.dropLast) :
+    noBranch (patchFalse b j).stmts.dropLast := by
+  unfold patchFalse
+  split
+  · split
+    · simp only [List.dropLast_concat]
+      exact h
+    · exact h
+  · exact h
+
+theorem stmts_appendStmt (bs : List Block) (s : IStmt) (i : Nat) (b' : Block) (h : (appendStmt bs s)[i]? = some b') :
+    ∃ b, bs[i]? = some b ∧ b'.stmts = if i = bs.length - 1 then b.stmts ++ [s] else b.stmts := by
+  unfold appendStmt CfgLift.modify at h
+  rw [List.getElem?_mapIdx] at h
+  cases hb : bs[i]? with
+  | none => rw [hb] at h; simp at h
+  | some b =>
+    rw [hb] at h; simp at h
+    refine ⟨b, rfl, ?_⟩
+    subst h
+    split <;> simp
+
+theorem stmts_completeBlock (bs : List Block) (ps : List Nat) (d : Nat) (i : Nat) (b' : Block)
+    (h : (completeBlock bs ps d)[i]? = some b') :
+    (i < bs.length ∧ ∃ b, bs[i]? = some b ∧ (noBranch b.stmts.dropLast → noBranch b'.stmts.dropLast)) ∨
+    (i = bs.length ∧ b'.stmts = []) := by
+  unfold completeBlock at h
+  simp only at h
+  by_cases hi : i < bs.length
+  · left
+    refine ⟨hi, ?_⟩
+    rw [List.getElem?_append_left (by simpa using hi), List.getElem?_mapIdx] at h
+    cases hb : bs[i]? with
+    | none => rw [hb] at h; simp at h
+    | some b =>
+      rw [hb] at h; simp at h
+      refine ⟨b, rfl, ?_⟩
+      subst h
+      intro hn
+      split
+      · exact patchFalse_stmts _ _ hn
+      · exact hn
+  · right
+    have hlen : (List.mapIdx (fun k b => if ps.contains k = true then patchFalse { b with succs := insertSorted bs.length b.succs } bs.length else b) bs).length = bs.length := by simp
+    have hi' : i ≥ bs.length := Nat.le_of_not_lt hi
+    rw [List.getElem?_append_right (by simpa using hi')] at h
+    simp only [List.length_mapIdx] at h
+    cases hk : i - bs.length with
+    | zero =>
+      rw [hk] at h
+      simp at h
+      subst h
+      exact ⟨by omega, rfl⟩
+    | succ k =>
+      rw [hk] at h
+      simp at h
+
+theorem stmts_addEdges (bs : List Block) (fs : List Nat) (hd : Nat) (i : Nat) (b' : Block)
+    (h : (addEdges bs fs hd)[i]? = some b') : ∃ b, bs[i]? = some b ∧ b'.stmts = b.stmts := by
+  unfold addEdges at h
+  rw [List.getElem?_mapIdx] at h
+  cases hb : bs[i]? with
+  | none => rw [hb] at h; simp at h
+  | some b =>
+    rw [hb] at h; simp only [Option.map_some, Option.some.injEq] at h
+    refine ⟨b, rfl, ?_⟩
+    subst h
+    split <;> split <;> rfl
+
+theorem bl_complete (bs : List Block) (ps : List Nat) (d : Nat)
+    (hpos : 0 < bs.length) (h2 : ∀ (i : Nat) (b : Block), bs[i]? = some b → noBranch b.stmts.dropLast) :
+    BranchLast (completeBlock bs ps d) := by
+  refine ⟨by rw [length_completeBlock]; omega, ?_, ?_⟩
+  · intro i b' hb'
+    rcases stmts_completeBlock bs ps d i b' hb' with ⟨_, b, hb, himp⟩ | ⟨_, he⟩
+    · exact himp (h2 i b hb)
+    · rw [he]; intro s hs; cases hs
+  · intro b' hb'
+    rw [length_completeBlock] at hb'
+    rcases stmts_completeBlock bs ps d (bs.length + 1 - 1) b' hb' with ⟨hlt, _⟩ | ⟨_, he⟩
+    · omega
+    · rw [he]; intro s hs; cases hs
+
+theorem branchLast_preserved : Preserved BranchLast where
+  pos := fun _ h => h.1
+  simple := by
+    intro bs loc ⟨hpos, h2, h3⟩
+    refine ⟨by rw [length_appendStmt]; exact hpos, ?_, ?_⟩
+    · intro i b' hb'
+      obtain ⟨b, hb, hst⟩ := stmts_appendStmt bs _ i b' hb'
+      rw [hst]
+      split
+      · rename_i hi
+        subst hi
+        simp only [List.dropLast_concat]
+        exact h3 b hb
+      · exact h2 i b hb
+    · intro b' hb'
+      rw [length_appendStmt] at hb'
+      obtain ⟨b, hb, hst⟩ := stmts_appendStmt bs _ _ b' hb'
+      rw [hst, if_pos rfl]
+      intro s hs
+      rcases List.mem_append.mp hs with hs | hs
+      · exact h3 b hb s hs
+      · have : s = _ := List.mem_singleton.mp hs
+        subst this; rfl
+  branch := by
+    intro bs loc t ps d ⟨hpos, h2, h3⟩ _ _
+    apply bl_complete
+    · rw [length_appendStmt]; exact hpos
+    · intro i b' hb'
+      obtain ⟨b, hb, hst⟩ := stmts_appendStmt bs _ i b' hb'
+      rw [hst]
+      split
+      · rename_i hi
+        subst hi
+        simp only [List.dropLast_concat]
+        exact h3 b hb
+      · exact h2 i b hb
+  complete := by
+    intro bs ps d ⟨hpos, h2, _⟩ _ _
+    exact bl_complete bs ps d hpos h2
+  edges := by
+    intro bs fs hd ⟨hpos, h2, h3⟩ _ _ _ _
+    refine ⟨by rw [length_addEdges]; exact hpos, ?_, ?_⟩
+    · intro i b' hb'
+      obtain ⟨b, hb, hst⟩ := stmts_addEdges bs fs hd i b' hb'
+      rw [hst]; exact h2 i b hb
+    · intro b' hb'
+      rw [length_addEdges] at hb'
+      obtain ⟨b, hb, hst⟩ := stmts_addEdges bs fs hd _ b' hb'
+      rw [hst]; exact h3 b hb
+
+theorem branchLast_init : BranchLast initBlocks := by
+  refine ⟨by simp [initBlocks], ?_, ?_⟩
+  · intro i b hb
+    cases i with
+    | zero => simp [initBlocks] at hb; subst hb; intro s hs; cases hs
+    | succ k => simp [initBlocks] at hb
+  · intro b hb
+    simp [initBlocks] at hb
+    subst hb
+    intro s hs; cases hs
+
+/-- in every block of a lifted CFG a branch can only be the last statement -/
+theorem lift_branch_last (body : Stmt) (bs : List Block) (ps : List Nat) (h : lift body = .ok bs ps) :
+    ∀ (i : Nat) (b : Block), bs[i]? = some b → ∀ s, s ∈ b.stmts.dropLast → isBranch s = false := by
+  have := visit_inv branchLast_preserved body 0 initBlocks branchLast_init
+  unfold lift at h
+  change visit body 0 initBlocks = _ at h
+  rw [h] at this
+  exact this.1.2.1
+
 end Circomspect.CfgLemmas
